@@ -162,6 +162,9 @@ def build(reg, src):
             st.ghost['sent_frames'] = VList(st.ghost['sent_frames'].items + [VTuple([s.msg_id, s.msg])])
         if 'registered_at_send' in st.ghost and s.has('writer'):
             st.ghost['send_writer'] = s.writer
+            nc2 = st.env.get('self') or next((v for v in st.env.values() if isinstance(v, VObj) and v.cls == 'NetworkClient'), None)
+            if nc2 is not None:
+                st.ghost['writer_at_send'] = st.field(nc2, 'writer')
     reg.fns[IPC + 'stream_send_msg'].ghost_at_call = note_send
 
     def call_post(s, r):
@@ -171,8 +174,23 @@ def build(reg, src):
         return And(VBool(len(regs) == 1 and len(sent) == 1), regs[0] if regs else VBool(False),
                    same(sent[0].items[1], s._entry['msg']) if sent else VBool(False),
                    # on the writer the listener owns (reset to None when the listener exits: a call after the loss then fails at once)
-                   same(w_used, s.old.field(s.self, 'writer')) if w_used is not None else VBool(False))
-    reg.fn(NC + 'call', setup=call_setup, returns='opaque', ensures=[call_post])
+                   # - the writer as it is WHEN THE SEND RUNS on the io loop, not a value read earlier on the caller's thread
+                   same(w_used, s.st.ghost.get('writer_at_send', s.old.field(s.self, 'writer'))) if w_used is not None else VBool(False))
+
+    def listener_may_exit(eng, st, s, node):
+        # interference between the caller's thread and the io loop: once the coroutine has been defined (the request is registered) and
+        # before it runs on the loop, the listener may have exited - its cleanup resets self.writer to None
+        import ast as _ast
+        if isinstance(node, _ast.AsyncFunctionDef) and 'listener_exit_modelled' not in st.ghost:
+            st.ghost['listener_exit_modelled'] = lift(True)
+            nc = st.env.get('self')
+            if isinstance(nc, VObj):
+                w = st.field(nc, 'writer')
+                lost = z3.Const(fresh_name('listener_exited'), z3.BoolSort())
+                w2 = VOpaque(hint='writer_now')
+                st.assume(z3.And(z3.Implies(lost, is_none(w2).t), z3.Implies(z3.Not(lost), w2.t == eng.as_obj(w))))
+                st.setfield(nc, 'writer', w2)
+    reg.fn(NC + 'call', setup=call_setup, returns='opaque', ensures=[call_post], at_every_point=listener_may_exit)
     reg.fn(NC + 'is_open', returns=Bool, verify=False, raises=[])
     reg.externals['uuid.uuid4'] = lambda e, st, a, k, n: [(st, VOpaque(hint='msg_id', nonnull=True))]
 
